@@ -148,33 +148,49 @@ def leaf(ctx, report, rule, facts, config, im, bodies, label):
             report.ob(rule, "%s/%s" % (label, m), False, "method missing", site=site, config=config)
             return
         report.touched(b, config)
-        bt = prog.bt(b)
+        from . import semq as Q
+        from .worldrules import _deep_all
         ids = []
         problems = []
-        ret = bt.local(0)
-        ret_calls = set(s_[1] for s_ in subterms(ret) if s_[0] == "call")
-        for bb, t in b.normal_calls():
-            c = Callee(t["func"])
-            if c.self_head == A.RESID and c.name in ("new", "new_with_dynamic_id", "from_type_id", "from_type_id_and_dynamic_id"):
-                if c.name != "new":
-                    problems.append("declares a dynamic id through %s" % c.name)
-                targs = [nolt(a["s"]) for a in c.type_args()]
-                flows = bb in ret_calls
-                if not flows:
-                    for st in bt.stores:
-                        v = bt.store_value(st)
-                        if any(s_[:2] == ("call", bb) for s_ in subterms(v)):
-                            base = bt.place(st[2])
-                            while isinstance(base, tuple) and base[0] in ("field", "cast", "index", "variant"):
-                                base = base[1] if base[0] != "cast" else base[2]
-                            if isinstance(base, tuple) and base[0] == "call" and base[1] in ret_calls:
-                                flows = True
-                if not flows:
-                    problems.append("ResourceId::new::<%s>() is computed but does not reach the returned vector" % ",".join(targs))
-                else:
-                    ids.extend(targs)
-            elif c.trait == A.T_SYSDATA:
-                problems.append("leaf delegates to %s" % c.short())
+        ctors = [x.key for x in facts.bodies.values() if not x.is_closure and x.self_head == A.RESID and x.name in ("new", "new_with_dynamic_id", "from_type_id", "from_type_id_and_dynamic_id")]
+        try:
+            ev, ends = Q.sem(ctx, facts, b, opaque=ctors)
+        except Exception as e_:
+            report.ob(rule, "%s/%s" % (label, m), False, "cannot tabulate %s (%s)" % (b.qname, type(e_).__name__), site=b.loc(), config=config)
+            decl[m] = None
+            continue
+        rets = [e for e in ends if e.kind == "return"]
+        if len(rets) != 1:
+            problems.append("%s has %d returning paths (expected one: the declared set must not depend on anything)" % (m, len(rets)))
+        for e in rets[:1]:
+            evs = _deep_all(e.path.events)
+            in_ret = set(s_ for s_ in subterms(e.ret) if s_[0] == "call")
+            stored = set()
+            for x in evs:
+                if x[0] == "store" and x[2][0] != "cell":
+                    base = x[2]
+                    while isinstance(base, tuple) and base[0] in ("field", "cast", "index", "variant"):
+                        base = base[1] if base[0] != "cast" else base[2]
+                    if base in in_ret or Q.strip(ev, base) in in_ret:
+                        stored |= set(s_ for s_ in subterms(x[3]) if s_[0] == "call")
+                elif x[0] == "call" and not x[2].local and x[2].name in ("push", "extend", "append", "insert", "extend_from_slice") and len(x[3]) >= 2 and Q.strip(ev, x[3][0]) in in_ret | set([Q.strip(ev, e.ret)]):
+                    stored |= set(s_ for a in x[3][1:] for s_ in subterms(a) if s_[0] == "call")
+                elif x[0] == "yield" and ("call", x[1], ()) [:2] == Q.strip(ev, e.ret)[:2]:
+                    stored |= set(s_ for s_ in subterms(x[2]) if s_[0] == "call")
+            for x in evs:
+                if x[0] != "call":
+                    continue
+                c = x[2]
+                if c.self_head == A.RESID and c.name in ("new", "new_with_dynamic_id", "from_type_id", "from_type_id_and_dynamic_id"):
+                    if c.name != "new":
+                        problems.append("declares a dynamic id through %s" % c.name)
+                    targs = [nolt(a) for a in (ev.targs(x[4]) or [])]
+                    if x[4] in in_ret or x[4] in stored:
+                        ids.extend(targs)
+                    else:
+                        problems.append("ResourceId::new::<%s>() is computed but does not reach the returned vector" % ",".join(targs))
+                elif c.trait == A.T_SYSDATA:
+                    problems.append("leaf delegates to %s" % c.short())
         decl[m] = sorted(ids)
         if problems:
             report.ob(rule, "%s/%s" % (label, m), False, "; ".join(problems), site=b.loc(), config=config)
